@@ -333,16 +333,15 @@ Definition is_reg (b : N) : bool := negb (is_ws b) && negb (is_delim b).
 Definition has_byte (x : N) (s : bytes) : bool := existsb (N.eqb x) s.
 
 (* lexer/mod.rs: Lexer::next_word — skip_whitespace and the `while buf[pos] == '%'` loop.
-   A comment that is not terminated by '\n' is NOT skipped: lexing resumes right after the '%'.
+   A comment ends at the first CR or LF, or at the end of the buffer.
    Result []: the end was reached (PdfError::EOF). *)
 Fixpoint skip_wc (incomment : bool) (s : bytes) : bytes :=
   match s with
   | [] => []
   | b :: t =>
-    if incomment then (if b =? font_comment_end then skip_wc false t else skip_wc true t)
+    if incomment then (if memN b font_comment_ends then skip_wc false t else skip_wc true t)
     else if is_ws b then skip_wc false t
-    else if b =? font_comment_start then
-      (if has_byte font_comment_end t then skip_wc true t else skip_wc false t)
+    else if b =? font_comment_start then skip_wc true t
     else s
   end.
 
